@@ -798,6 +798,21 @@ func TestVerifC36(t *testing.T) {
 			}
 			return "nonexistent"
 		}
+		// a kind: mostly one that has entities in this case
+		pickKind := func() *vC36Kind {
+			if r.Chance(3, 4) {
+				var with []int
+				for ki := range vC36Kinds {
+					if l, ok := listings[vC36Kinds[ki].typ]; ok && l.present && !l.failed && len(l.ents) > 0 {
+						with = append(with, ki)
+					}
+				}
+				if len(with) > 0 {
+					return &vC36Kinds[with[r.Intn(len(with))]]
+				}
+			}
+			return &vC36Kinds[r.Intn(len(vC36Kinds))]
+		}
 		qclass := "no-query"
 		switch r.Intn(10) {
 		case 0, 1, 2:
@@ -807,27 +822,27 @@ func TestVerifC36(t *testing.T) {
 			case 0:
 				setQ("type", vPick(r, []string{"foo", "path", "Paths", "paths ", ""}))
 			default:
-				setQ("type", vC36Kinds[r.Intn(len(vC36Kinds))].typ)
+				setQ("type", pickKind().typ)
 			}
 		case 5, 6: // one filter
 			qclass = "filter"
-			k := &vC36Kinds[r.Intn(len(vC36Kinds))]
+			k := pickKind()
 			f := k.filters[r.Intn(len(k.filters))]
 			setQ(f[0], filterFor(k, f))
 		case 7: // type + filter (same or another kind)
 			qclass = "type+filter"
-			k := &vC36Kinds[r.Intn(len(vC36Kinds))]
+			k := pickKind()
 			f := k.filters[r.Intn(len(k.filters))]
 			setQ(f[0], filterFor(k, f))
 			if r.Chance(2, 3) {
 				setQ("type", k.typ)
 			} else {
-				setQ("type", vC36Kinds[r.Intn(len(vC36Kinds))].typ)
+				setQ("type", pickKind().typ)
 			}
 		case 8: // two or three filters
 			qclass = "filters"
 			for c := 2 + r.Intn(2); c > 0; c-- {
-				k := &vC36Kinds[r.Intn(len(vC36Kinds))]
+				k := pickKind()
 				if r.Chance(1, 3) {
 					k = &vC36Kinds[r.Intn(2)] // paths / forward destinations: path + forward_dest
 				}
